@@ -191,6 +191,9 @@ pub struct Case {
     /// the contract was upgraded (by its owner) and not yet migrated: the migration window is open
     #[serde(default)]
     pub window_open: bool,
+    /// entry-point sweep case (see sweep.rs); the other fields are ignored
+    #[serde(default)]
+    pub sweep: Option<crate::sweep::SweepCase>,
 }
 
 #[derive(Clone)]
@@ -420,7 +423,7 @@ impl Property for C06 {
         "C06"
     }
     fn rule(&self) -> &'static str {
-        "every case = (role-transfer history over the 6 transferable roles of the 5 role-bearing contracts, one of 29 administrative entry points, one of 7 principal classes: current holder, former holder, holder of another role, beneficiary named in the arguments, stranger, nobody, holder-authorised-other-arguments). The full 29x7 matrix with an empty history is enumerated in every run (fixed cases), once in the ordinary state and once with the contract's migration window open (upgraded, not yet migrated); for the idempotent entry points (role transfers, add/remove minter, upgrade) also the variant in which the same change was already applied once; proptest adds histories of 1-5 transfers (incl. to self, to the other role's holder, and back). Engine: the authorisation trees the call needs are recorded in a twin world with all auths mocked, then replayed in a fresh identical world in which exactly one principal signs the tree recorded for the role holder. Oracle: role model: success iff that principal is the current holder (and signed these exact arguments); refusals must leave the ledger snapshot identical; after an accepted transfer the role query names exactly the successor. non-trivial = principal is not simply the initial holder (principal class != Holder, or history non-empty); distinct by Debug hash"
+        "every case = (role-transfer history over the 6 transferable roles of the 5 role-bearing contracts, one of 29 administrative entry points, one of 7 principal classes: current holder, former holder, holder of another role, beneficiary named in the arguments, stranger, nobody, holder-authorised-other-arguments). The full 29x7 matrix with an empty history is enumerated in every run (fixed cases), once in the ordinary state and once with the contract's migration window open (upgraded, not yet migrated); for the idempotent entry points (role transfers, add/remove minter, upgrade) also the variant in which the same change was already applied once; proptest adds histories of 1-5 transfers (incl. to self, to the other role's holder, and back). Engine: the authorisation trees the call needs are recorded in a twin world with all auths mocked, then replayed in a fresh identical world in which exactly one principal signs the tree recorded for the role holder. Oracle: role model: success iff that principal is the current holder (and signed these exact arguments); refusals must leave the ledger snapshot identical; after an accepted transfer the role query names exactly the successor. non-trivial = principal is not simply the initial holder (principal class != Holder, or history non-empty); distinct by Debug hash. A share of the random cases is an entry-point sweep (the exported functions of all shipped contracts are read from the sources of the tree under test; entry points absent from the pinned inventory get 300 deterministic cases each and half of the random sweep cases): one entry point is called on a fully deployed system (gateway, gas service, operators, token service with a deployed token owned by the service, stand-alone token, upgrader, example app; some contracts optionally upgraded-but-not-migrated) with arguments from pools of principals / contracts / tokens / names / ids / boundary amounts, every require_auth satisfied by the host's mock and recorded; cases where the mock let a contract sign are discarded; oracle: a change of any contract's owner, of the gateway operator, of the operator set, of the trusted chains or of a token's minters needs the current holder of the governing role among the recorded signers (or to be the called contract); non-trivial = the call succeeded"
     }
     fn fixed_is_exhaustive(&self) -> Option<&'static str> {
         Some("entry-point x principal matrix (29 x 7) with empty role history enumerated completely; histories sampled")
@@ -429,7 +432,7 @@ impl Property for C06 {
         tier.pick(10000, 100000)
     }
     fn strategy(&self, _tier: Tier) -> BoxedStrategy<Case> {
-        (
+        let direct = (
             proptest::collection::vec((0u8..7, 0u8..POOL as u8).prop_map(|(role, to)| Xfer { role, to }), 0..6),
             prop::sample::select(EPS.to_vec()),
             prop::sample::select(PRINCIPALS.to_vec()),
@@ -444,18 +447,22 @@ impl Property for C06 {
                         x.role = r;
                     }
                 }
-                Case { history, ep, principal, pre_applied, window_open }
+                Case { history, ep, principal, pre_applied, window_open, sweep: None }
             })
-            .boxed()
+            .boxed();
+        match crate::sweep::strategy(crate::sweep::Rule::Roles) {
+            Some(sw) => prop_oneof![2 => direct, 1 => sw.prop_map(|s| Case { history: vec![], ep: EPS[0], principal: PRINCIPALS[0], pre_applied: false, window_open: false, sweep: Some(s) })].boxed(),
+            None => direct,
+        }
     }
     fn fixed_cases(&self, _tier: Tier) -> Vec<Case> {
-        let mut v = vec![];
+        let mut v: Vec<Case> = crate::sweep::fixed_cases(300).into_iter().map(|s| Case { history: vec![], ep: EPS[0], principal: PRINCIPALS[0], pre_applied: false, window_open: false, sweep: Some(s) }).collect();
         for ep in EPS {
             for p in PRINCIPALS {
-                v.push(Case { history: vec![], ep, principal: p, pre_applied: false, window_open: false });
-                v.push(Case { history: vec![], ep, principal: p, pre_applied: false, window_open: true });
+                v.push(Case { history: vec![], ep, principal: p, pre_applied: false, window_open: false, sweep: None });
+                v.push(Case { history: vec![], ep, principal: p, pre_applied: false, window_open: true, sweep: None });
                 if ep.idempotent() {
-                    v.push(Case { history: vec![], ep, principal: p, pre_applied: true, window_open: false });
+                    v.push(Case { history: vec![], ep, principal: p, pre_applied: true, window_open: false, sweep: None });
                 }
             }
         }
@@ -463,6 +470,9 @@ impl Property for C06 {
     }
 
     fn run(&self, case: &Case, cx: &mut Cx) -> Result<(), String> {
+        if let Some(sw) = &case.sweep {
+            return crate::sweep::run(sw, cx, crate::sweep::Rule::Roles);
+        }
         let ep = case.ep;
         let role = ep.role();
         let other_call = case.principal == Principal::HolderOtherCall && ep.has_variant();
